@@ -24,7 +24,7 @@ PLAN = {
     "thorough": [(S_PATH, "AmpPath", "Gen_enc.cfg", "pathenc", 5000), (S_PATH, "AmpPath", "Gen_dec.cfg", "pathdec", 5000),
                  (S_URL, "CacheURL", "Gen_prefix.cfg", "prefix", 30000), (S_URL, "CacheURL", "Gen_url.cfg", "url", 5000)],
 }
-RV_CFG = {"quick": ("Gen_quick.cfg", 5000), "thorough": ("Gen_thorough.cfg", 20000)}
+RV_CFG = {"quick": ("Gen_quick.cfg", 12000), "thorough": ("Gen_thorough.cfg", 30000)}
 
 
 def run(chk, args):
@@ -56,15 +56,21 @@ def run(chk, args):
     if cases is None:
         return
     for c in cases:
-        k = "rv:%s/%s" % (c["cs"]["method"], c["expect"]["res"])
-        classes[k] = classes.get(k, 0) + 1
-    chk.sample(cases[len(cases) // 3])
+        for e in c["expect"]:
+            k = "rv:%s/%s" % (c["cs"]["method"], e["res"])
+            classes[k] = classes.get(k, 0) + 1
+        if len(c["polls"]) > 1:
+            k = "rv:%s/sequence/front=%s/cache=%s" % (c["cs"]["method"], c["cs"]["front"], c["cs"]["cache"])
+            classes[k] = classes.get(k, 0) + 1
+    chk.sample(cases[-1])
     n = 0
     for rnd in range(1 if chk.tier == "quick" else 3):     # further rounds: other payload bytes and body reader scripts
         s = drive_inpkg(chk, cases, seed=chk.seed + 7919 * rnd)
-        n += s["cases"]
-    chk.note("Rendezvous: %d exchanges through the real client code" % n)
-    for need in ("rv:http/data", "rv:http/error", "rv:amp/data", "rv:amp/error", "rv:amp/any"):
+        n += s.get("exchanges", 0)
+    chk.note("Rendezvous: %d rendezvous objects, %d exchanges through the real client code (sequences of 1..3 polls per object)" % (len(cases), n))
+    for need in ("rv:http/data", "rv:http/error", "rv:amp/data", "rv:amp/error", "rv:amp/any",
+                 "rv:http/sequence/front=front/cache=none", "rv:amp/sequence/front=front/cache=none",
+                 "rv:amp/sequence/front=front/cache=root", "rv:amp/sequence/front=none/cache=path"):
         if not classes.get(need):
             chk.fail("vacuous: no case of class %s" % need)
             return
@@ -94,7 +100,7 @@ def generate(chk, specdir, module, cfg, least):
         # an invariant of the contract failing is a defect of the specification, not a verdict
         chk.fail("%s %s failed: %s\n%s" % (module, cfg, r.error, r.out[-2000:]))
         return None
-    chk.note("TLC %s %s: %d cases, contract invariants hold (%.0fs)" % (module, cfg, len(r.prints), r.wall))
+    chk.note("TLC %s %s: %d cases, %d states, contract invariants hold (%.0fs)" % (module, cfg, len(r.prints), r.distinct, r.wall))
     if len(r.prints) < least:
         chk.fail("vacuous: %s %s produced only %d cases" % (module, cfg, len(r.prints)))
         return None
@@ -124,7 +130,7 @@ def drive_inpkg(chk, cases, max_report=8, base=0, seed=None):
                 reported += 1
     if summary is None:
         raise vlib.Inconclusive("in-package rendezvous test wrote no summary:\n%s" % r.out[-2000:])
-    chk.cov["evaluations"] += int(summary.get("cases", 0))
+    chk.cov["evaluations"] += int(summary.get("exchanges", summary.get("cases", 0)))
     chk.cov["distinct_nontrivial"] += int(summary.get("nontrivial", 0))
     return summary
 
